@@ -393,7 +393,103 @@ def gen_long_silence(rng):
     return ' '.join(ops)
 
 
+def gen_duplicates(rng):
+    """Several signals inside one pass of the event loop (identical wake-up stamp): sources signal the SAME
+    frame at the same priority and stamp again, with or without other members' updates in between - every
+    signal from a group member is an update (LTP: ties are not "newer", so the repeated frame wins again and
+    is handed out again)."""
+    ops = []
+    port_ids = rng.sample(range(8), rng.choice([2, 3]))
+    clients = rng.sample(range(8), rng.choice([0, 1, 2]))
+    ops += ['ai,%d' % i for i in port_ids]
+    ops += ['ao,%d' % rng.randrange(8), 'mode,%d' % rng.choice([1, 1, 0])]
+    if rng.random() < 0.5:
+        ops.append('ak,%d' % rng.randrange(8))
+    srcs = [('p', i) for i in port_ids] + [('c', c) for c in clients]
+    now = rng.randrange(1, 10 ** 7)
+    held = {}
+
+    def send(src, fr, ts):
+        k, i = src
+        held[src] = fr
+        if k == 'p':
+            ops.append('pd,%d,%s,%d,%d' % (i, hx(fr), ts, now))
+        else:
+            ops.append('cd,%d,%s,100,%d,%d' % (i, hx(fr), ts, now))
+
+    for _ in range(rng.choice([2, 3, 4])):
+        wake = now                       # one pass: every stamp below is this one
+        for _ in range(rng.choice([3, 4, 6])):
+            s0 = rng.choice(srcs)
+            if s0 in held and rng.random() < 0.6:
+                send(s0, held[s0], wake)                       # the identical frame again
+            else:
+                send(s0, gen_frame(rng, False) or [1], wake)
+            now += rng.choice([0, 0, 1, 100])                  # the universe clock may move inside the pass
+        now += rng.choice([1000, 22000, 1000000, TIMEOUT])
+    return ' '.join(ops)
+
+
+def gen_empty_forms(rng):
+    """A source sends a real frame and then an EMPTY one in each of its C++ forms (initialised length 0,
+    never-initialised DmxBuffer, Reset() buffer) with a fresh stamp, for port and client entry points;
+    then the other members of the group update: the emptied source must be out of the merge."""
+    ops = []
+    port_ids = rng.sample(range(8), 2)
+    clients = rng.sample(range(8), 2)
+    out_id = rng.randrange(8)
+    ops += ['ai,%d' % port_ids[0], 'ai,%d' % port_ids[1], 'ao,%d' % out_id, 'mode,%d' % rng.choice([0, 0, 1])]
+    if rng.random() < 0.5:
+        ops.append('ak,%d' % rng.randrange(8))
+    now = rng.randrange(1, 10 ** 7)
+    srcs = [('p', port_ids[0]), ('p', port_ids[1]), ('c', clients[0]), ('c', clients[1])]
+    rng.shuffle(srcs)
+    srcs = srcs[:rng.choice([2, 3, 4])]
+
+    def send(src, field):
+        k, i = src
+        if k == 'p':
+            ops.append('pd,%d,%s,%d,%d' % (i, field, now, now))
+        else:
+            ops.append('cd,%d,%s,100,%d,%d' % (i, field, now, now))
+
+    for _ in range(rng.choice([2, 3, 5])):
+        for s0 in srcs:
+            now += rng.choice([0, 1, 1000, 40000])
+            send(s0, hx(gen_frame(rng, False) or [1]))
+        victim = rng.choice(srcs)
+        now += rng.choice([1, 1000, 40000])
+        send(victim, rng.choice(['-', '~', '~', '_']))
+        for s0 in srcs:
+            if s0 != victim:
+                now += rng.choice([0, 1, 1000])
+                send(s0, hx(gen_frame(rng, False) or [2]))
+        if rng.random() < 0.4:
+            ops.append('sd,%s' % rng.choice(['-', '~', '_']))
+    return ' '.join(ops)
+
+
+def _empty_forms(rng, payload):
+    """every empty frame field of a payload takes one of its three C++ forms at random"""
+    if payload.startswith('tv '):
+        return payload
+    out = []
+    for tok in payload.split(' '):
+        f = tok.split(',')
+        if len(f) > 2 and f[0].lstrip('@') in ('pd', 'cd', 'co') and f[2] == '-':
+            f[2] = rng.choice(['-', '-', '~', '~', '_'])
+        elif len(f) == 2 and f[0].lstrip('@') == 'sd' and f[1] == '-':
+            f[1] = rng.choice(['-', '~', '_'])
+        out.append(','.join(f))
+    return ' '.join(out)
+
+
 def gen_cases(rng, tier):
+    for payload in _gen_cases(rng, tier):
+        yield _empty_forms(rng, payload)
+
+
+def _gen_cases(rng, tier):
     quick = tier == 'quick'
     n = 4000 if quick else 200000
     for k in range(n):
@@ -410,6 +506,10 @@ def gen_cases(rng, tier):
         yield gen_real_sinks(rng)
     for k in range(n // 8):
         yield gen_priority_admin(rng)
+    for k in range(n // 10):
+        yield gen_empty_forms(rng)
+    for k in range(n // 10):
+        yield gen_duplicates(rng)
     # raw struct timeval liveness (TimerAdd carry, timercmp, timerisset) around the 2.5 s boundary and at
     # ages where a fixed-width counter of us / ms / s would wrap
     for k in range(n // 8):
@@ -430,7 +530,7 @@ def nontrivial(payload, md):
 
 RULE = ('random histories (1-40 ops after a random patching prologue) over <=4 input ports, <=3 source clients, '
         '<=3 output ports, <=3 sink clients (each with a scripted WriteDMX/SendDMX return value; in a third of the cases and in a dedicated family the sinks are REAL ola::Client objects over a stub with deferred/partial/never-arriving acks, and in a third there are two universes sharing the clients), SetDMX, both merge modes with switches mid-history; '
-        'priority administration through the real PortManager::SetPriorityStatic/SetPriorityInherit (same value re-set, >200, FULL/STATIC capability, input and output ports) interleaved with data; very long silences (ages at and inside 2^15..2^33 us/ms/s, i.e. where a fixed-width time counter wraps) in random histories, a long-silence family and the raw timeval cases; housekeeping histories (CleanStaleSourceClients every 10 s, 2-4 runs, clients streaming every 0.5-2.4 s or going silent, another group member updating right after a run); priorities from '
+        'repeated identical signals (same frame, priority and wake-up stamp) inside one event-loop pass with other members in between; every empty frame in one of its three C++ forms (initialised length 0 / never-initialised DmxBuffer / Reset() buffer) for port data, client data and SetDMX, plus a family where a source empties itself while the others carry on; priority administration through the real PortManager::SetPriorityStatic/SetPriorityInherit (same value re-set, >200, FULL/STATIC capability, input and output ports) interleaved with data; very long silences (ages at and inside 2^15..2^33 us/ms/s, i.e. where a fixed-width time counter wraps) in random histories, a long-silence family and the raw timeval cases; housekeeping histories (CleanStaleSourceClients every 10 s, 2-4 runs, clients streaming every 0.5-2.4 s or going silent, another group member updating right after a run); priorities from '
         '{0,1,99,100,101,199,200}+palette (+201/255 rarely), clock steps {0,1,2499999,2500000,2500001,...} '
         'including steps aimed at ts+2.5s-1/+0/+1 of an existing source, stamps equal/older/newer than the clock '
         'and unset, frame lengths {0,1..5,..,511,512,513}; class = set of merge outcomes reached '
